@@ -33,10 +33,11 @@ SPEC = {
                   "rpkigen ground truth (asserted against the case), watchdog time (20 s per run).",
     "rule": "cases: chains of length d-1..d+2 for every limit d in 0..5 (threads 1, and 4 at d+1); eight cycle shapes "
             "(self-issued, own key for another point, two-, three-node, inner cycle, back edge with a fresh key, key reuse "
-            "for a new point, cycle with a legitimate tail) x limits {1,2,3,5} x threads {1,4} (+ limit 32 once); three "
-            "shared-sub-tree shapes (diamond, two TALs one sub-tree, two certificates one child) x the same; random graphs "
+            "for a new point, cycle with a legitimate tail) x six (limit, threads) pairs over limits {1,2,3,5} and threads {1,4} "
+            "(+ limit 32 once); three shared-sub-tree shapes (diamond, two TALs one sub-tree, two certificates one child) x "
+            "six such pairs; random graphs "
             "of 2..7 points over 2 rsync modules with back edges, key reuse, wrong keys, broken points, invalid "
-            "certificates, 1-2 TALs, limit 0..5 (quick 110, thorough 1500); distinct = distinct Coq case term; "
+            "certificates, 1-2 TALs, limit 0..5 (quick 90, thorough 1500); distinct = distinct Coq case term; "
             "non-trivial = some certificate was skipped (invalid_certs > 0) or the run did not end normally",
     "assumptions": ["every CaTask returned by PubPoint::process is eventually passed to process_ca_task exactly once "
                     "(directly or through the queue) and threads only reorder visits (thread pool not modelled)",
